@@ -487,6 +487,23 @@ fn gen_c12(seed: u64, tier: Tier) -> Scenario {
         sc.config.chunk = sc.config.chunk.min(64);
         sanitize(&mut sc.config);
     }
+    if sc.config.kind.is_async() && rng.chance(0.04) {
+        // "all original ratios": far from 1 in either direction (1e-5.5 .. 1e5.5); tiny cheap instances
+        let e = rng.uniform(2.0, 5.5) * if rng.chance(0.5) { 1.0 } else { -1.0 };
+        sc.config.ratio = if rng.chance(0.3) { 10f64.powf(e).round().max(1.0).powf(e.signum()) } else { 10f64.powf(e) };
+        sc.config.max_rel = *rng.pick(&[1.0, 1.5, 2.0, 2.0, 10.0, 1.1, 3.7]);
+        sc.config.chunk = rng.usize_in(1, 16);
+        sc.config.channels = sc.config.channels.min(1);
+        if sc.config.kernel != Kernel::Custom {
+            sc.config.sinc_len = 8;
+        }
+        sc.config.oversampling = sc.config.oversampling.min(16);
+        if sc.config.oversampling == 1 && sc.config.interp >= 2 {
+            sc.config.interp = 1;
+        }
+        sc.config.mask = None;
+        sanitize(&mut sc.config);
+    }
     sc.signal = gen_signal(&mut rng);
     let n = ops_budget(&sc.config, tier_budget(tier), 5, q(tier, 30, 60), &mut rng);
     let m = OpMix::swarm(&mut rng, n);
@@ -989,6 +1006,12 @@ fn gen_c17(seed: u64, tier: Tier) -> Scenario {
         1 => Signal::Impulses { seed: rng.next(), period: rng.usize_in(3, 100) as u32, floor: 0.01 },
         _ => Signal::Multisine { seed: rng.next() },
     };
+    if rng.chance(0.12) {
+        // "all signals of bounded amplitude": the agreement is relative to the signal peak, wherever that lies in the
+        // range both sample types represent comfortably (1e-25 .. 1e25)
+        let e = rng.uniform(3.0, 25.0) * if rng.chance(0.5) { 1.0 } else { -1.0 };
+        sc.signal = Signal::Tiny { seed: rng.next(), scale: 10f64.powf(e) };
+    }
     let n = ops_budget(&sc.config, tier_budget(tier) * 0.5, 5, q(tier, 50, 120), &mut rng);
     let m = OpMix::swarm(&mut rng, n);
     let (p, ops, t) = gen_history(&mut rng, &sc.config, &m);
@@ -1038,7 +1061,12 @@ fn eval_c17(sc: &Scenario) -> Outcome {
         }
         let ya = &a.out[c];
         let yb = &b.out[c];
-        let peak = ya.iter().fold(1.0f64, |m, v| m.max(v.abs()));
+        // floor of the peak: the nominal amplitude of the input signal
+        let floor = match &sc.signal {
+            Signal::Tiny { scale, .. } => *scale,
+            _ => 1.0,
+        };
+        let peak = ya.iter().fold(floor, |m, v| m.max(v.abs()));
         // The f32 sinc table is normalised by a sequentially accumulated f32 sum of len * oversampling terms: the f32
         // instantiation has a uniform gain error of up to n * eps / 2 (worst case; about sqrt(n) * eps typically). That
         // gain is estimated from the two streams and judged on its own; what is left must agree to the rounding of a
@@ -1564,6 +1592,13 @@ fn gen_c15(seed: u64, tier: Tier) -> Scenario {
         if sc.config.oversampling == 1 && sc.config.interp >= 2 {
             sc.config.interp = 1;
         }
+    }
+    if rng.chance(0.006) {
+        // the degenerate multiple of 8: no taps, every kernel returns 0 and reads nothing (SincFixedIn with a 1- or
+        // 2-point interpolation runs it; the other combinations are known finding D18)
+        sc.config.kind = Kind::SincIn;
+        sc.config.sinc_len = 0;
+        sc.config.interp %= 2;
     }
     sc.signal = match rng.below(5) {
         0 => Signal::Noise { seed: rng.next() },
